@@ -162,8 +162,10 @@ func candidateDocument(c *engine.Ctx) {
 }
 
 // commitSource: the collection merged at commit derives from the source that was validated.
-func commitSource(c *engine.Ctx) {
-	o := c.Custom("C05.2b", "K-dataflow(domain agreement)", "the commit step merges AddDeleteChildren(own, S, CFG.Values) with S the change's values (change) or P.Status.RollbackValues (rollback); the VALIDATED path of a rollback stores the validated RollbackValues into P.Status",
+func commitSource(c *engine.Ctx) { commitSourceAs(c, "C05.2b") }
+
+func commitSourceAs(c *engine.Ctx, id string) {
+	o := c.Custom(id, "K-dataflow(domain agreement)", "the commit step merges AddDeleteChildren(own, S, CFG.Values) with S the change's values (change) or P.Status.RollbackValues (rollback); the VALIDATED path of a rollback stores the validated RollbackValues into P.Status",
 		"what is merged is what was validated")
 	defer o.Done(2)
 	paths, err := c.A.Paths(pkgProposalCtl)
